@@ -281,6 +281,10 @@ class BaseLoadedMessage(LoadedMessageInterface):
                 subtype, params, disposition, language, location,
                 content_id, content_desc, content_encoding, None, size, lines)
         size = len(msg)
+        if maintype == 'message' and subtype == 'rfc822':
+            # The nested message was not parsed, so the envelope and body
+            # structure that this type must be described with do not exist.
+            maintype, subtype = 'application', 'octet-stream'
         return ContentBodyStructure(
             maintype, subtype, params, disposition, language, location,
             content_id, content_desc, content_encoding, None, size)
